@@ -172,6 +172,37 @@ claim(
     "DESIGN.md §5.6 C45",
 )
 
+claim(
+    "C40",
+    "OpResult is modelled as a pool of optional values with a ledger of contained objects that follows the code's "
+    "placement-new / destructor calls (Model/OpResult.lean). Proved for every operation sequence: the number of live "
+    "contained objects equals the number of engaged wrappers, so once all wrappers are destroyed nothing is left alive "
+    "(C40_ledger, C40_all_destroyed); each operation has std::optional's effect on its destination and leaves all "
+    "other objects untouched (C40_sem_*; the moved-from source is disengaged, which the property leaves open). The tie "
+    "runs random operation sequences on OpResult<Tracked>, std::optional<Tracked> and the model and compares engaged "
+    "flag, value and live-object count after every operation (ASan/UBSan/LSan build).",
+    "Trusted: Lean kernel; hand-written model checked against the code on the explored sequences; the state of a "
+    "moved-from OpResult is treated as unspecified. The original leak is kept as the proved witness C40_old_leaks.",
+    "Lean 4 proof (ledger invariant by induction over operation sequences) + differential correspondence",
+    "DESIGN.md §5.5 C40",
+)
+
+claim(
+    "C38",
+    "SmallVector is modelled as contents + heap flag + capacity per vector, each operation written as the loop the C++ "
+    "performs, with ledgers of element objects and heap buffers (Model/SmallVec.lean). Proved for every operation "
+    "sequence and inline capacity: every element constructed is destroyed exactly once and every heap buffer freed "
+    "exactly once (C38_ledger, C38_all_destroyed); size <= capacity and inline vectors have capacity N (C38_capacity); "
+    "each operation has std::vector's effect on contents (C38_sem_*); element addresses are aligned when the buffer "
+    "address is (C38_elem_aligned). The tie compares size, capacity, contents and live count with the model and "
+    "contents/positions with std::vector after every operation for N in {1,2,4,8}; separate streams check alignment "
+    "for element types aligned to 16..128 bytes (non-ASan build) and push_back(v[i]) with an aliasing argument.",
+    "Trusted: Lean kernel; hand-written model checked on the explored sequences; the alignment of the allocation call "
+    "(operator new / alignedMalloc) is observed by the alignment stream, the theorem covers only the address arithmetic.",
+    "Lean 4 proof (ledger/capacity invariants by induction over operation sequences) + differential correspondence",
+    "DESIGN.md §5.5 C38",
+)
+
 ALL = ["C%02d" % i for i in range(1, 49)]
 for _p in ALL:
     if _p not in CLAIMED:
